@@ -963,7 +963,9 @@ class Audit:
                 if k2.rsplit("#", 1)[0] == pre:
                     j = j2
                     break
-        if j and j.get("desc"):
+        if j and j.get("desc") and (s.kind == "assert" or s.cls == "index"):
+            # (for index expressions, bounds checks and checked arithmetic: there the operands are what was reviewed; an
+            # `unwrap()` on a write into a Vec is safe whatever the capacity expression reads like)
             # the entry was reviewed for particular operands: found by its key, it still has to be about an expression of the
             # same shape (constants, operators, calls, field structure; names of locals may change freely) — `stack[sp - 1]`
             # rewritten as `stack[sp]` at the same ordinal is a different site
@@ -1011,6 +1013,15 @@ class Audit:
                 self.used_justifications.add(k2)
                 s.verdict, s.reason = "justified", "[same site as %s] %s" % (k2.rsplit(" | ", 1)[1], j2["reason"])
                 return True
+        # the same expression up to the names of locals and the way an operand value is spelled (`num_args` a parameter in the
+        # reviewed code, `args.len()` now): one reviewed site of this function and kind has this shape
+        sh = _shape(_norm_desc(desc))
+        same = [(k2, j2) for k2, j2 in self.justified.items() if j2.get("desc") and len(k2.split(" | ")) == 3 and k2.split(" | ")[0] == fn
+                and _norm_what(k2.split(" | ")[1]) == wn and sh in (_shape(_norm_desc(j2["desc"])), _shape(_norm_desc(j2.get("desc_inl") or j2["desc"])))]
+        if len(same) == 1 and not self._requires(fn, same[0][1].get("requires", []), s):
+            self.used_justifications.add(same[0][0])
+            s.verdict, s.reason = "justified", "[same shape as site %s] %s" % (same[0][0].rsplit(" | ", 1)[1], same[0][1]["reason"])
+            return True
         # the site moved from a helper into the helper's only caller (`let args = self.stack[sp-n..sp].to_vec()` taken out of
         # call_builtin and done by exec_call before the call): same operands, and the helper has no other caller, so the
         # context the entry was reviewed in is the context of that caller
@@ -1703,8 +1714,20 @@ def _untuple1(d):
 
 
 def _shape(d):
-    """a description with the names of locals and fields abstracted (function names and paths stay)"""
-    return re.sub(r"(?<![\w:])[a-z_][a-z0-9_]*\b(?!\(|::)", "v", d)
+    """a description with the names of locals and fields abstracted and every call inside the operands read as a value
+    (what stays: the site's own callee, constants, arithmetic and comparison operators, ranges, field / index structure)"""
+    head, body = "", d
+    m = re.match(r"^([A-Za-z_][\w:<>]*)\((.*)\)$", d, re.S)
+    if m and "=" not in m.group(1):
+        head, body = m.group(1), m.group(2)
+    for _ in range(12):
+        b2 = re.sub(r"(?<![\w:>])[A-Za-z_][\w:<>]*\(([^()]*)\)", "v", body)
+        if b2 == body:
+            break
+        body = b2
+    body = re.sub(r"(?<![\w:])[a-z_][a-z0-9_]*\b(?!\(|::)", "v", body)
+    body = re.sub(r"[&*]+v", "v", body)
+    return head + "(" + body + ")" if head else body
 
 
 def _norm_desc(d):
